@@ -2,10 +2,10 @@ package sym
 
 import (
 	"crypto/sha256"
-	"sort"
 	"fmt"
 	"go/token"
 	"go/types"
+	"sort"
 	"strings"
 )
 
